@@ -405,6 +405,37 @@ func c03Loops(c *an.Ctx) {
 			c.Bad("R7", shortFn(name)+": has an ingestion loop", fn.Pos(), "no loop found")
 		}
 	}
+	// query-string pairs: once a pair has been split into name and value it is stored, whatever the name
+	// (an empty name is still an argument: "=payload" is ARGS:""); only an empty pair ("&&") is skipped,
+	// and that is decided before the split.
+	if pq := c.Fn("R7", "internal/url.doParseQuery"); pq != nil {
+		var split ssa.Instruction
+		an.Instrs(pq, func(in ssa.Instruction) {
+			if an.IsCallToFunc(in, "strings", "IndexByte") {
+				if k, ok := intConstArg(an.CallOf(in), 1); ok && k == '=' {
+					split = in
+				}
+			}
+		})
+		if split == nil {
+			c.Unknown("R7", "doParseQuery: name/value split", pq.Pos(), "no strings.IndexByte(pair, '=') found")
+		} else {
+			lp := an.InnermostLoop(split.Block())
+			w := an.FindPath(an.PathQuery{Fn: pq, After: split,
+				Stop: func(in ssa.Instruction) bool { _, ok := in.(*ssa.MapUpdate); return ok },
+				Target: func(in ssa.Instruction) bool {
+					if _, ok := in.(*ssa.Return); ok {
+						return true
+					}
+					return lp != nil && in.Block() == lp.Header && in == lp.Header.Instrs[0]
+				}})
+			if w != nil {
+				c.Bad("R7", "doParseQuery: a pair that was split into name and value is always stored", split.Pos(), "after the name/value split an iteration can end without adding the pair to the result: some pairs (e.g. those with an empty name, \"=payload\") never become arguments and are invisible to ARGS*", c.P.TrailString(w)...)
+			} else {
+				c.Ok("R7", "doParseQuery: a pair that was split into name and value is always stored", split.Pos(), "every path from the split to the next iteration passes the map update")
+			}
+		}
+	}
 	// JSON member callback rewinds the shared key buffer on every continuing path
 	var cb *ssa.Function
 	if ri := c.Fn("R7", "internal/bodyprocessors.readItems"); ri != nil {
